@@ -211,6 +211,14 @@ def runC06 (fields : List String) (obs : String) : String × String × String :=
               let lastBare : Bool :=
                 let last := ((src.splitOn "\n").filter (fun l => !l.trimAscii.toString.isEmpty)).getLast?.getD ""
                 !(hasSub last "=") && !(hasSub last " + ") && !(hasSub last " - ") && !(hasSub last " * ") && !(hasSub last " / ") && !(hasSub last "(")
+              -- the last statement is a call of a function the program itself defines: the call is evaluated by the
+              -- interpreter when it is reached and compiles to no instruction either
+              let lastCallsDefined : Bool :=
+                let lines := (src.splitOn "\n").filter (fun l => !l.trimAscii.toString.isEmpty)
+                let last := lines.getLast?.getD ""
+                match last.splitOn "(" with
+                | fname :: _ :: _ => !fname.isEmpty && !(hasSub last "=") && lines.any (fun l => l.startsWith (fname ++ "(") && hasSub l ") =>")
+                | _ => false
               let working := simpleProgram src && cls != "matrix-literals"
               let same := b == a
               let isErr := b.startsWith "err:"
@@ -223,7 +231,7 @@ def runC06 (fields : List String) (obs : String) : String × String × String :=
               let region :=
                 if verdict == "ok" then "-"
                 else if b.startsWith "panic:run" then "C06-D3"
-                else if !isErr then (if !hasOp && b == "empty" then "C06-D4" else if hasOp && lastBare then "C06-D8" else "-")
+                else if !isErr then (if !hasOp && b == "empty" then "C06-D4" else if hasOp && lastBare then "C06-D8" else if hasOp && lastCallsDefined then "C06-D9" else "-")
                 else if working && cls == "operators" && operandMD src true && operandMD src false then "C06-D5"
                 else if working && hasSub src "x = " then "C06-D6"
                 else if working then "-"
